@@ -964,7 +964,30 @@ def family_tests(f, root):
     return out
 
 
+def _bound_owner(owner_body, t, want):
+    """The block (α-rendered) whose lower (`want` = 'L') / upper ('U') bound the term is, or None."""
+    t = strip_deep(t)
+    if t[0] == "agg" and t[1] == _OPTION and t[2] == "Some":
+        t = strip_deep(dict(t[3]).get("0", ("unknown", "?")))
+    if t[0] == "field" and str(t[2]) == "0" and strip_deep(t[1])[0] == "variant":
+        inner = strip_deep(strip_deep(t[1])[1])
+        if inner[0] == "call" and _block_call(inner, "next", "previous"):
+            return None
+    if _block_call(t, "min" if want == "L" else "max") and t[2]:
+        return K.alpha(render(t[2][0]), owner_body)
+    if t[0] == "field" and str(t[2]) == ("0" if want == "L" else "1") and bound_kind(K.sym_of(owner_body), t) == want:
+        base = strip_deep(t[1])
+        if _block_call(base, "bounds") and base[2]:
+            return K.alpha(render(base[2][0]), owner_body)
+        return K.alpha(render(base), owner_body)
+    return None
+
+
 def check_adjacency_implies_overlap(ctx, f):
+    """Contradiction rule, per test: code that asks "does B start right after A ends" (`next(A.max) == Some(B.min)` or
+    `previous(B.min) == Some(A.max)`, the stepped value possibly kept in a local) believes blocks may touch — then they
+    may also overlap, and the same function must compare B's lower with A's upper bound by order (or ask
+    Block::intersects about the two)."""
     nadj = 0
     roots = sorted({root_fn(f, n) for n, b in f.bodies.items()
                     if b.file.endswith("resources/chain.rs") and not is_derived(b) and "::test" not in n})
@@ -973,28 +996,58 @@ def check_adjacency_implies_overlap(ctx, f):
         if rb is None:
             continue
         adjacency, ordering = [], []
-        for owner, where, a in family_tests(f, root):
+        tests = family_tests(f, root)
+        for owner, where, a in tests:
             if a[0] != "cmp":
                 continue
             vals = Vals.of(f, owner)
             if a[1] in ("==", "!="):
-                steps = [x for side in (a[2], a[3]) for alt in vals.alts(side) for x in walk(alt) if _block_call(x, "next", "previous")]
-                if steps:
-                    adjacency.append((where, K.alpha(render(a[2]), owner)[:90], K.alpha(render(a[3]), owner)[:90]))
+                for stepped, other in ((a[2], a[3]), (a[3], a[2])):
+                    As, Bs, found = set(), set(), False
+                    for alt in vals.alts(stepped):
+                        for x in walk(alt):
+                            if _block_call(x, "next") and x[2]:
+                                found = True
+                                As.add(_bound_owner(owner, x[2][0], "U"))
+                            elif _block_call(x, "previous") and x[2]:
+                                found = True
+                                Bs.add(_bound_owner(owner, x[2][0], "L"))
+                    if not found:
+                        continue
+                    for alt in vals.alts(other):
+                        (Bs if As else As).add(_bound_owner(owner, alt, "L" if As else "U"))
+                    adjacency.append((where, K.alpha(render(a[2]), owner)[:80] + " == " + K.alpha(render(a[3]), owner)[:80], As, Bs))
+                    break
             else:
                 ka, kb = bound_kind(vals.sym, a[2]), bound_kind(vals.sym, a[3])
                 if {ka, kb} == {"L", "U"}:
-                    ordering.append((where, ka, a[1], kb))
+                    lo, hi = (a[2], a[3]) if ka == "L" else (a[3], a[2])
+                    ordering.append((where, _bound_owner(owner, lo, "L"), _bound_owner(owner, hi, "U")))
         if not adjacency:
             continue
         names = [root] + list(f.children(root))
-        by_predicate = any(_block_call(("call", c.res, (), {"name": c.name, "trait": c.trait}), "intersects")
-                           for n in names if f.body(n) is not None for c in f.body(n).calls() if not f.body(n).is_cleanup(c.bb))
+        asked = []          # argument pairs of Block::intersects calls
+        for n in names:
+            nb = f.body(n)
+            for c in (nb.calls() if nb is not None else ()):
+                if not nb.is_cleanup(c.bb) and c.name == "intersects" and (c.trait or "").endswith("chain::Block"):
+                    asked.append({K.alpha(render(x), nb) for x in K.arg_terms(c)[:2]})
         nadj += 1
-        ctx.ob("R-SIB", "%s:adjacency-implies-overlap-test" % short(root), bool(ordering) or by_predicate,
-               "%s merges blocks on adjacency (next(max) == min) and also compares a lower against an upper bound by order "
-               "(or asks Block::intersects), so overlapping neighbours are merged too" % short(root), where=rb.loc,
-               detail={"adjacency_tests": adjacency, "ordering_tests": ordering, "intersects": by_predicate})
+        seen = set()
+        for where, text, As, Bs in adjacency:
+            if text in seen:
+                continue
+            seen.add(text)
+            if None in As or None in Bs or not As or not Bs:
+                # whose bounds these are cannot be told: the function as a whole must compare a lower with an upper bound
+                ok = bool(ordering) or bool(asked)
+            else:
+                ok = any(lo in Bs and hi in As for _, lo, hi in ordering) or any(q & As and q & Bs for q in asked)
+            ctx.ob("R-SIB", "%s:adjacency-implies-overlap-test[%s]" % (short(root), text[:100]), ok,
+                   "%s merges blocks on adjacency (next(max) == min) and also compares that lower against that upper bound by "
+                   "order (or asks Block::intersects), so overlapping neighbours are merged too" % short(root), where=where,
+                   detail={"after": sorted(map(str, As)), "block": sorted(map(str, Bs)),
+                           "ordering_tests": [list(map(str, o)) for o in ordering], "intersects": [sorted(q) for q in asked]})
     ctx.floor("R-SIB", "functions merging on adjacency in chain.rs", nadj, 3)
 
 
